@@ -18,6 +18,9 @@ type c03Stmt struct {
 	Lang string
 }
 
+// print and println accept neither structs nor arrays (a compiler-only rule)
+func condPrintable(c *c03Class) bool { return c.Name != "struct" && c.Name != "array" }
+
 var c03AssignOps = []string{"+=", "-=", "*=", "/=", "%=", "&=", "|=", "^=", "<<=", ">>=", "&^="}
 
 var c03Stmts = func() []c03Stmt {
@@ -108,7 +111,7 @@ var c03Stmts = func() []c03Stmt {
 		{Name: "defer-builtins", Body: "defer close(vC)\ndefer delete(vM, vStr)\ndefer clear(vM)\ndefer copy(vS, vS)\ndefer print(vN)\ndefer println(vStr, vN)\ndefer recover()\ndefer panic(vStr)"},
 		{Name: "defer-method-value", Body: "f := vSt.M\ndefer f()\ng := vIf.M\ndefer g()\ndefer (*‹St›).PM(vPSt)"},
 		{Name: "go-forms", Body: "go vF(vP)\ngo vSt.M()\ngo vIf.M()\ngo func() { vN++ }()\ngo func(c chan τ) { c <- vP }(vC)\ngo ‹vaE›()"},
-		{Name: "go-builtins", Body: "go close(vC)\ngo delete(vM, vStr)\ngo clear(vS)\ngo copy(vS, vS)\ngo print()\ngo println(vP)\ngo recover()\ngo panic(vErr)"},
+		{Name: "go-builtins", Cond: condPrintable, Body: "go close(vC)\ngo delete(vM, vStr)\ngo clear(vS)\ngo copy(vS, vS)\ngo print()\ngo println(vP)\ngo recover()\ngo panic(vErr)"},
 		// return shapes are in their own family (they need their own signatures)
 		// assignments
 		{Name: "assign-forms", Body: "var x, y τ\nx = vP\nx, y = y, x\n_ = x\n_, y = vP, vQ\nvSt.F = x\nvPSt.F = y\nvPSt.G.F = y\n*vPP = x\nvS[vN] = y\nvA[0] = x\nvPA[1] = y\nvM[vStr] = x\nvEm.F = y\nvEm.‹StName›.F = x\n(x) = y\n(*vPP) = x\n(vS[0]) = y\n(vSt.F) = x\n_ = y"},
@@ -134,7 +137,7 @@ var c03Stmts = func() []c03Stmt {
 		{Name: "builtin-delete2", Body: "delete(vM, vStr)\ndelete(vM, \"k\")\ndelete(map[any]τ{}, vI)"},
 		{Name: "builtin-panic", Body: "if vB {\npanic(vStr)\n}\nif vN > 0 {\npanic(vErr)\n}\nif vN > 1 {\npanic(vP)\n}\nif vN > 2 {\npanic(nil)\n}\nif vN > 3 {\npanic(fmt.Sprintf(\"%d\", vN))\n}"},
 		{Name: "builtin-panic-tail", Body: "vN++\npanic(\"unreachable\")"},
-		{Name: "builtin-print", Body: "print()\nprint(vN, vStr, vB)\nprintln()\nprintln(vP, vFl)"},
+		{Name: "builtin-print", Cond: condPrintable, Body: "print()\nprint(vN, vStr, vB)\nprintln()\nprintln(vP, vFl)"},
 		{Name: "builtin-copy", Body: "copy(vS, vS[1:])\nn := copy(vBs, vStr)\nn = copy(vBs, vBs)\n_ = n"},
 		{Name: "builtin-recover-forms", Body: "recover()\n_ = recover()\nr := recover()\nif recover() != nil {\nvI = r\n}\ndefer recover()\ndefer func() { recover() }()\ndefer func() { vI = recover() }()"},
 		{Name: "builtin-min-max", Body: "vN = min(vN, 1, 2)\nvN = max(vN, len(vS))\nvFl = min(vFl, 1, 2.5)\nvStr = max(vStr, \"a\")\nconst k = min(1, 2, 3)\nvN = max(k, vN)\nvFl = max(float64(vN), vFl)"},
